@@ -799,6 +799,7 @@ fn op_iter(cx: &mut Ctx, s: usize, variant: u64) -> Out {
     let spec = OpSpec { toks: format!("iter {} {} {}", s, variant, delta), kind: match variant { 0 => "iter", 1 => "keys", 2 => "values", 3 => "iter_mut", _ => "values_mut" }, slots: vec![s], pslot: Some(s), fuse: None, key_adding: false, readonly: false, key: None };
     let mut problems: Vec<String> = Vec::new();
     let clone_at = cx.rng.below(8) as usize;
+    let alt = cx.opi % 2 == 1;
     let out = run_op(cx, spec, |cx| {
         let m = cx.maps[s].as_mut().unwrap();
         let n = m.len();
@@ -835,7 +836,12 @@ fn op_iter(cx: &mut Ctx, s: usize, variant: u64) -> Out {
         }
         match variant {
             0 => {
-                walk!(m.iter(), |g: &mut Vec<(u64, u64, u64)>, (k, v): (&K, &V), _| g.push((k.class, k.id, v.get())));
+                if alt {
+                    // IntoIterator for &HashMap is iter()
+                    walk!((&*m).into_iter(), |g: &mut Vec<(u64, u64, u64)>, (k, v): (&K, &V), _| g.push((k.class, k.id, v.get())));
+                } else {
+                    walk!(m.iter(), |g: &mut Vec<(u64, u64, u64)>, (k, v): (&K, &V), _| g.push((k.class, k.id, v.get())));
+                }
                 // clone independence
                 let mut a = m.iter();
                 for _ in 0..clone_at.min(n) {
@@ -853,18 +859,46 @@ fn op_iter(cx: &mut Ctx, s: usize, variant: u64) -> Out {
                     let v = order.get(i).map_or(0, |x| x.2);
                     g.push((k.class, k.id, v))
                 });
+                let mut a = m.keys();
+                for _ in 0..clone_at.min(n) {
+                    a.next();
+                }
+                let b = a.clone();
+                let ra: Vec<u64> = a.map(|k| k.class).collect();
+                let rb: Vec<u64> = b.map(|k| k.class).collect();
+                if ra != rb || ra.len() != n - clone_at.min(n) {
+                    problems.push("cloned keys() iterator diverges".into());
+                }
             }
             2 => {
                 walk!(m.values(), |g: &mut Vec<(u64, u64, u64)>, v: &V, i: usize| {
                     let (k, kid) = order.get(i).map_or((0, 0), |x| (x.0, x.1));
                     g.push((k, kid, v.get()))
                 });
+                let mut a = m.values();
+                for _ in 0..clone_at.min(n) {
+                    a.next();
+                }
+                let b = a.clone();
+                let ra: Vec<u64> = a.map(|v| v.get()).collect();
+                let rb: Vec<u64> = b.map(|v| v.get()).collect();
+                if ra != rb || ra.len() != n - clone_at.min(n) {
+                    problems.push("cloned values() iterator diverges".into());
+                }
             }
             3 => {
-                walk!(m.iter_mut(), |g: &mut Vec<(u64, u64, u64)>, (k, v): (&K, &mut V), _| {
-                    g.push((k.class, k.id, v.get()));
-                    v.add(delta)
-                });
+                if alt {
+                    // IntoIterator for &mut HashMap is iter_mut()
+                    walk!((&mut *m).into_iter(), |g: &mut Vec<(u64, u64, u64)>, (k, v): (&K, &mut V), _| {
+                        g.push((k.class, k.id, v.get()));
+                        v.add(delta)
+                    });
+                } else {
+                    walk!(m.iter_mut(), |g: &mut Vec<(u64, u64, u64)>, (k, v): (&K, &mut V), _| {
+                        g.push((k.class, k.id, v.get()));
+                        v.add(delta)
+                    });
+                }
             }
             _ => {
                 walk!(m.values_mut(), |g: &mut Vec<(u64, u64, u64)>, v: &mut V, i: usize| {
